@@ -240,6 +240,7 @@ def run(chk):
     hunt_rules(chk, repo)
     hunt3_rules(chk, repo)
     hunt4_rules(chk, repo)
+    hunt5_rules(chk, repo)
 
 
 def _t(v) -> str:
@@ -367,6 +368,58 @@ def hunt_rules(chk, repo):
     else:
         chk.violation("C14.routedef", ga[0], K.short(ga[0]), 'getattr(router, "add_" + method, None) with add_route() as fallback',
                       f"hdrs.METH_ALL contains {', '.join(lacking)} but UrlDispatcher has no add_{lacking[0].lower()}(): web.route('{lacking[0]}', ...) passes the METH_ALL test and add_routes() dies with AttributeError, while router.add_route('{lacking[0]}', ...) works")
+
+
+def hunt5_rules(chk, repo):
+    """Rules written after the fifth defect hunt (F279-F281)."""
+    # ---- C14.mount.once: a sub-application is prefixed once, and only by a parent that can still take it ----------------------------------------------
+    # add_subapp() prefixes the resources of the sub-application in place (the factory does) and pre-freezes it.  Mounting an application that is
+    # pre-frozen already stacks a second prefix on the same, shared resources (`/v1` and `/v2` both answer 404, only `/v2/v1/...` is served);
+    # a parent that is pre-frozen itself raises only after the factory ran.  Both tests have to precede the factory call.
+    asb = repo.func("aiohttp/web_app.py", "Application._add_subapp")
+    fac = [c for c in prog.calls_in(asb.node) if norm.raw(c.func) == "resource_factory"]
+    if not fac:
+        chk.analysis_error("C14.mount.once: `resource_factory()` not found in Application._add_subapp")
+    else:
+        units = {(l.text, l.pos) for l in PC.units(PC.pc(K.stmt_of(fac[0]), raw=True))}
+        missing = [w for w in ("subapp.pre_frozen", "self.pre_frozen") if (w, False) not in units]
+        if not missing:
+            chk.ok("C14.mount.once", fac[0], "_add_subapp(): the factory that prefixes the sub-application's resources runs only for a sub-application that is not mounted yet (not pre-frozen) and a parent whose router is not frozen")
+        else:
+            chk.violation("C14.mount.once", fac[0], K.short(fac[0]), " / ".join(f"if {m}: raise RuntimeError(...)" for m in missing) + " before resource_factory()",
+                          "add_subapp() accepts an application that is mounted already (or a parent that is pre-frozen and refuses only after the factory ran): its shared resources get a second prefix in place - `add_subapp('/v1', api); add_subapp('/v2', api)` leaves both `/v1/items` and `/v2/items` at 404, url_for() answers `/v2/v1/items`; the same happens to a domain sub-app that is mounted under a prefix as well")
+    # ---- C14.method.case: the duplicate-method guard looks a route up under the key it is stored under ------------------------------------------------
+    ar = repo.func(MOD, "Resource.add_route")
+    gets = [c for c in prog.calls_in(ar.node) if norm.raw(c.func) == "self._routes.get" and c.args]
+    stores = [a for f_ in (ar, repo.func(MOD, "Resource.register_route")) for a in ast.walk(f_.node) if isinstance(a, ast.Assign) and isinstance(a.targets[0], ast.Subscript) and norm.raw(a.targets[0].value) == "self._routes"]
+    ri = repo.func(MOD, "AbstractRoute.__init__")
+    upper_in_route = any(isinstance(a, ast.Assign) and norm.raw(a.targets[0]) in ("self._method", "method") and ".upper()" in norm.raw(a.value) for a in ast.walk(ri.node))
+    if not gets or not stores:
+        chk.analysis_error("C14.method.case: the duplicate-method guard / the store of Resource.add_route was not found")
+    else:
+        keyed_by_route = any("route_obj.method" in norm.raw(a.targets[0].slice) or ".method" in norm.raw(a.targets[0].slice) for a in stores)
+        key = norm.raw(gets[0].args[0])
+        if keyed_by_route and upper_in_route and ".upper()" not in key:
+            chk.violation("C14.method.case", gets[0], K.short(gets[0]), "self._routes.get(method.upper(), ...)",
+                          f"routes are stored under the upper-cased method (AbstractRoute.__init__) but the duplicate guard looks `{key}` up as it was written: `add_route('GET', '/x', first)` followed by `add_route('get', '/x', second)` passes the guard and silently replaces the first route - GET /x is answered by another handler than the one registered first")
+        else:
+            chk.ok("C14.method.case", gets[0], "the duplicate-method guard looks the route up under the upper-cased method, the key it is stored under")
+    # ---- C14.prefix.empty: a prefix added after freeze() goes in front of the path that was registered -------------------------------------------------
+    pr = repo.cls(MOD, "PlainResource")
+    fz, ap = pr.methods.get("freeze"), pr.methods.get("add_prefix")
+    if fz is None or ap is None:
+        chk.analysis_error("C14.prefix.empty: PlainResource.freeze / add_prefix not found")
+    else:
+        rewrites = [a for a in ast.walk(fz.node) if isinstance(a, ast.Assign) and any(norm.raw(t) == "self._path" for t in a.targets) and isinstance(a.value, ast.Constant) and a.value.value == "/"]
+        restores = [a for a in ast.walk(ap.node) if isinstance(a, ast.Assign) and any(norm.raw(t) == "self._path" for t in a.targets) and isinstance(a.value, ast.Constant) and a.value.value == ""
+                    and PC.pc(a, raw=True)]
+        if not rewrites:
+            chk.ok("C14.prefix.empty", fz, "freeze() does not rewrite the registered path")
+        elif restores:
+            chk.ok("C14.prefix.empty", restores[0], "add_prefix(): the `/` that freeze() wrote for a resource registered with the empty path is taken back before the prefix is put in front")
+        else:
+            chk.violation("C14.prefix.empty", ap, "self._path = prefix + self._path", "if <registered as ''> and self._path == '/': self._path = self._path_safe = ''",
+                          "freeze() turns the empty path into `/`; an application is pre-frozen when it is mounted, so a prefix that is added later (a domain sub-app nested below a prefixed one) produces `<prefix>/`: `GET /pre` is 404 and `/pre/` is served, while the same route in a prefixed sub-app answers `/pre`")
 
 
 def hunt4_rules(chk, repo):
